@@ -4,6 +4,7 @@ import (
 	"fmt"
 	"hash/fnv"
 	"os"
+	"strconv"
 	"time"
 )
 
@@ -222,6 +223,11 @@ func (e *Explorer) Explore() {
 	}
 	if e.NShards <= 0 {
 		e.NShards = 1
+	}
+	if v, err := strconv.Atoi(os.Getenv("VERIF_PREEMPT")); err == nil && v >= 0 {
+		// experiments: one preemption bound for every scenario (e.g. a bound no schedule reaches = all interleavings)
+		e.S.Opts.Bounds.Preempt = v
+		st.Bounds = e.S.Opts.Bounds.String() + " [VERIF_PREEMPT]"
 	}
 	b := e.S.Opts.Bounds
 
